@@ -251,3 +251,43 @@ EXPLANATION = ("The basename block of DSDLDefinition.__init__ (mechanical AST sl
                "short name.  The directory-consistency check of CompositeType.__init__ is verified in specs/c05.py.")
 ASSUMPTIONS = ["str.join / str.split with a one-character separator are mutually inverse on sequences whose elements do not "
                "contain it", "file names are at most 255 characters long (int() digit limit not reached)"]
+
+
+# ------------------------------------------------------------------------------------------------ bounded: path to root
+def extra_path_to_root(eng, tier, seed):
+    """Bounded, native, not counted: source_file_path / source_file_path_to_root of a composite point back to the file and
+    to the root namespace directory, also when a nested namespace component repeats the name of the root or of another
+    component (the directory walk must go up exactly len(namespace components) levels)."""
+    from pathlib import Path
+    from pydsdl import _serializable as S
+
+    violations, checked = [], 0
+    cases = [("alpha.Tp", "/x/alpha/Tp.1.0.dsdl", "/x/alpha"), ("alpha.alpha.Tp", "/x/alpha/alpha/Tp.1.0.dsdl", "/x/alpha"),
+             ("alpha.beta.alpha.Tp", "/x/alpha/beta/alpha/Tp.1.0.dsdl", "/x/alpha"),
+             ("a.a.a.Tp", "/r/a/a/a/Tp.1.0.dsdl", "/r/a"), ("ns.sub.ns.sub.T", "/ns/sub/ns/sub/T.1.0.dsdl", "/ns"),
+             ("a.b.Tp", "/q/a/a/b/Tp.1.0.dsdl", "/q/a/a"), ("alpha.Tp", "alpha/Tp.1.0.dsdl", "alpha")]
+    for name, path, root in cases:
+        for has_parent in (False, True):
+            nm = name + ".Request" if has_parent else name
+            try:
+                t = S.StructureType(name=nm, version=S.Version(1, 0), attributes=[], deprecated=False, fixed_port_id=None,
+                                    source_file_path=Path(path), has_parent_service=has_parent)
+            except Exception as ex:
+                violations.append({"name": "native/path-to-root", "concrete": {"name": nm, "path": path},
+                                   "detail": "rejected: %s: %s" % (type(ex).__name__, ex)})
+                continue
+            checked += 1
+            if t.source_file_path != Path(path) or t.source_file_path_to_root != Path(root):
+                violations.append({"name": "native/path-to-root", "concrete": {"name": nm, "path": path},
+                                   "detail": "source_file_path_to_root = %s, expected %s" % (t.source_file_path_to_root, root)})
+    return {"check": "source_file_path_to_root on repeated namespace components (bounded, native)", "cases": checked,
+            "violations": violations[:1]}
+
+
+EXTRA_CHECKS = list(globals().get("EXTRA_CHECKS", [])) + [extra_path_to_root]
+
+
+# ------------------------------------------------------------------------------------------------ bounded: spelling probe
+from .fsprobe import extra_spelling_probe  # noqa: E402  (shared with C10)
+
+EXTRA_CHECKS = EXTRA_CHECKS + [extra_spelling_probe]
